@@ -227,7 +227,7 @@ class Run(object):
         child = self.child
         w.begin_op(k)
         kind = op['op']
-        rec = {'k': k, 'op': kind, 't0': w.now, 'c0': len(child.chunks) if child is not None and hasattr(child, 'chunks') else 0}
+        rec = {'k': k, 'op': kind, 't0': w.now, 'cost0': w.cost_total, 'c0': len(child.chunks) if child is not None and hasattr(child, 'chunks') else 0}
         w.note('op', (k, kind))
         try:
             rec['ret'] = self.dispatch(kind, op)
@@ -250,6 +250,7 @@ class Run(object):
             rec['exc'] = e
             rec['site'] = _tb_site(e)
         rec['t1'] = w.now
+        rec['cost'] = w.cost_total - rec['cost0']
         rec['c1'] = len(child.chunks) if child is not None and hasattr(child, 'chunks') else 0
         self.ops.append(rec)
         return rec
@@ -372,7 +373,17 @@ def run_with(scn, body):
     gc.disable()
     run = Run(scn)
     try:
-        return body(run)
+        res = body(run)
+        if run.w.faults.get('eintr') and isinstance(res, tuple) and len(res) == 2 and res[0]:
+            # A tree that relies on the interpreter to retry interrupted waits (PEP 475: true on every CPython the checks
+            # can run on) lets the injected InterruptedError escape.  That is not a violation of any property on this
+            # runtime, so such a run is set aside (and counted) instead of judged; a tree that CATCHES the interruption
+            # and then mishandles the deadline is judged as usual.
+            if any('InterruptedError' in (v.msg or '') or 'InterruptedError' in repr(v.detail) for v in res[0]):
+                info = res[1]
+                info.setdefault('counters', {})['set_aside:eintr_not_caught'] = 1
+                res = ([], info)
+        return res
     finally:
         run.finish()
         if was:
